@@ -49,6 +49,11 @@ func complete(cmd *cobra.Command, args []string) (string, error) {
 			}
 		}
 
+		if len(args) < 2 {
+			// the patched line has no word of the command itself (e.g. only a redirect behind `&`)
+			return ActionValues().Invoke(NewContext()).value(args[0], ""), nil
+		}
+
 		action, context := traverse(cmd, args[2:])
 		if err := config.Load(); err != nil {
 			action = ActionMessage("failed to load config: " + err.Error())
